@@ -4,7 +4,9 @@ usage: seed_prompt.py <property id> <worktree path>"""
 import json, sys
 props = {json.loads(l)['id']: json.loads(l) for l in open('/verif/properties.jsonl')}
 pid, wt = sys.argv[1], sys.argv[2]
+K = sys.argv[3] if len(sys.argv) > 3 else None
 p = props[pid]
+DIVERSITY = "" if K is None else f"DIVERSITY RULE: do not take the first idea. First write down at least 8 candidate changes that are located in at least 5 different functions (and in different files where the behaviour behind the property spans several files: state machine, action runner, recovery, storage back-ends sqlite AND cosmosdb, validation, helpers), number them 1..n, then work on candidate number (({K} - 1) mod n) + 1; only if that one cannot be made to pass the existing suite move on to the next number. Say in meta.json which candidates you listed.\n\n"
 print(f"""You are given a Go repository (a workflow engine: module github.com/element-of-surprise/coercion) as a scratch git worktree at {wt}. Work ONLY inside {wt} (never touch /repo, never look at /verif — it is off limits).
 
 PROPERTY ({pid}: {p['title']}):
@@ -13,7 +15,7 @@ PROPERTY ({pid}: {p['title']}):
 
 TASK: produce ONE realistic code change to the engine (non-test .go files under {wt}) that BREAKS this property while (a) the repository still compiles, and (b) the repository's existing test suite still passes. The change should look like a plausible regression/refactoring mistake a developer could make (wrong condition, dropped wait/lock/flush, reordered statements, off-by-one, wrong variable, missing propagation, two cooperating sites that each look fine alone ...). It must NOT be something ordinary use would expose at once: it should need something specific to manifest — a particular interleaving, a crash or fault at a particular point, a multi-step sequence of operations, an unusual input or configuration, or a specific plan shape. Keep the diff small (typically 1-15 lines). Do not touch test files, do not add build tags, do not change public API signatures.
 
-ENVIRONMENT: no network. For every go command use exactly: `export GOFLAGS=-mod=mod GOPROXY=off` (do NOT set GOTOOLCHAIN or GOSUMDB). Run the existing suite with `cd {wt} && go test -vet=off -count=1 ./...` (takes ~2-3 min because of internal/etoe); it must pass with your change applied (run it, do not assume).
+{DIVERSITY}ENVIRONMENT: no network. For every go command use exactly: `export GOFLAGS=-mod=mod GOPROXY=off` (do NOT set GOTOOLCHAIN or GOSUMDB). Run the existing suite with `cd {wt} && go test -vet=off -count=1 ./...` (takes ~2-3 min because of internal/etoe); it must pass with your change applied (run it, do not assume).
 
 DEMONSTRATION: write a demonstration that the property is really broken: a Go test file `{wt}/internal/etoe/seeded_demo_test.go` (package etoe; or another suitable package / a small main program under {wt}/cmd_demo/ if easier) that drives the PUBLIC behaviour (coercion.New / Submit / Start / Wait / storage vault API / the relevant public package) with your own plugins, and FAILS with your change and PASSES on the unchanged code (`git stash` / `git checkout` the non-test change to verify both ways; if the failure is schedule-dependent, loop inside the test until it shows, and say how many iterations it typically needs). Look at {wt}/internal/etoe/*_test.go and {wt}/workflow/storage/sqlite/testing/plugins for how to write plugins and run plans (sqlite.New(ctx, "", reg, sqlite.WithInMemory()) gives an in-memory store).
 
